@@ -160,7 +160,7 @@ def gen_population(rnd):
 def gen_steps(rnd):
     steps = []
     for _ in range(rnd.choice([0, 1, 2, 3, 3, 5])):
-        op = rnd.choice(["add-same", "add-other", "override", "override", "textbox", "reclone", "notes", "layout-add"])
+        op = rnd.choice(["add-same", "add-other", "override", "override", "textbox", "reclone", "notes", "layout-add", "notes-old"])
         st = {"op": op, "slide": rnd.randrange(8)}
         if op == "layout-add":  # the layout itself is edited between two additions; the next slide must mirror it as it is then
             steps.append(st)
@@ -412,6 +412,28 @@ def do_step(ctx, st, where):
         if ok:
             acc.hit("clone_layout_placeholders:onto-populated-slide")
             check_cloned(ctx, e, want, ph_records(e["slide"]._element)[n0:], where + " (re-clone)")
+    elif op == "notes-old":
+        # "notes slides mirror the notes master's ... the same way" - also the notes of a slide the deck already HAD (whose number
+        # need not be the number of any notes slide, nor free among them); "the other slides are untouched" covers their notes too
+        olds = getattr(ctx, "old_slides", None)
+        if olds is None:
+            from pptx.slide import Slide  # noqa
+
+            pres_ = ctx.prs.part
+            olds = ctx.old_slides = []
+            for pos_, rid in enumerate(xp(pres_._element, "./p:sldIdLst/p:sldId/@r:id")[: len(ctx.before or [])]):
+                try:
+                    olds.append((pos_, pres_.rels[rid].target_part.slide))
+                except KeyError:
+                    pass
+            ctx.old_notes = []
+        cands = [(pos_, sl) for pos_, sl in olds if not sl.has_notes_slide]
+        if cands:
+            pos_, sl = cands[st["slide"] % len(cands)]
+            ok, ns = ctx.api("notes:raises", lambda: sl.notes_slide)
+            if ok:
+                ctx.old_notes.append((pos_, {"slide": sl, "notes": ns}))
+                acc.hit("notes_slide-created-for-a-preexisting-slide")
     elif op == "notes" and e["notes"] is None:
         had = e["slide"].has_notes_slide
         ok, ns = ctx.api("notes:raises", lambda: e["slide"].notes_slide)
@@ -443,6 +465,9 @@ def check_saved(ctx):
     rels = {r.id: r.target for r in pkg.rels(pres)}
     order = [rels.get(i) for i in xp(pkg.xml_root(pres), "./p:sldIdLst/p:sldId/@r:id")]
     acc.count("saved_packages_read")
+    sids = [int(i) for i in xp(pkg.xml_root(pres), "./p:sldIdLst/p:sldId/@id") if i.isdigit()]
+    if len(set(sids)) != len(sids) and not getattr(ctx, "sid_dups_before", False):
+        ctx.bad("slide-id-duplicated:saved", "saved p:sldIdLst carries ids %s: an added slide shares its id with another slide" % sids[-6:])
     # "the other slides are untouched": the slides the deck had when it was opened, position by position
     if getattr(ctx, "before", None) is not None and len(order) >= len(ctx.before) and not getattr(ctx, "reopened", False):
         for pos, (want, pn) in enumerate(zip(ctx.before, order)):
@@ -452,6 +477,20 @@ def check_saved(ctx):
             acc.count("preexisting_slides_compared_after_save")
             if got != want:
                 ctx.bad("other-slide-changed:saved", "slide at position %d (now %s) differs in the saved package from what it was when the deck was opened" % (pos + 1, pn))
+    # ... and the notes slides they had, slide by slide
+    if getattr(ctx, "notes_before", None) is not None and not getattr(ctx, "reopened", False):
+        for pos, want in enumerate(ctx.notes_before):
+            pn = order[pos] if pos < len(order) else None
+            if want is None or pn is None:
+                continue
+            nr = [r for r in pkg.rels(pn) or [] if r.type == RT + "notesSlide" and not r.external and pkg.has_part(r.target)]
+            acc.count("preexisting_notes_slides_compared_after_save")
+            if len(nr) != 1 or etree.tostring(pkg.xml_root(nr[0].target), method="c14n") != want:
+                ctx.bad("other-notes-slide-changed:saved", "the notes slide of the slide at position %d differs in the saved package from what it was when the deck was opened (or is gone)" % (pos + 1))
+    for pos, e_old in getattr(ctx, "old_notes", []):
+        if pos < len(order) and order[pos] is not None and pkg.has_part(order[pos]):
+            check_notes(ctx, e_old, pkg, pres, order[pos])
+            acc.count("notes_of_preexisting_slides_checked")
     for n, (e, pn) in enumerate(zip(ctx.added, order[-len(ctx.added):])):
         if pn != str(e["slide"].part.partname) or len(order) < len(ctx.added):
             ctx.bad("not-last", "saved p:sldIdLst: position of added slide #%d holds %s, its part is %s" % (n, pn, e["slide"].part.partname))
@@ -541,6 +580,22 @@ def slides_before(prs):
     return out
 
 
+def notes_before(prs):
+    """Canonical XML of the notes slide of every slide already in the deck (None where a slide has none), by position."""
+    from lxml import etree
+
+    out = []
+    pres = prs.part
+    for rid in xp(pres._element, "./p:sldIdLst/p:sldId/@r:id"):
+        try:
+            part = pres.rels[rid].target_part
+            nrs = [r for r in part.rels.values() if r.reltype == RT + "notesSlide" and not r.is_external]
+            out.append(etree.tostring(etree.fromstring(nrs[0].target_part.blob), method="c14n") if len(nrs) == 1 else None)
+        except KeyError:
+            out.append(None)
+    return out
+
+
 def baseline_errors():
     """Validation messages of a slide made from an unmodified layout (expected: none)."""
     from vlib import xsdkit
@@ -564,6 +619,9 @@ def run_case(case, acc, cls):
     ctx.baseline = _BASE[0]
     ctx.prs = prs = open_deck(case["deck"])
     ctx.before = slides_before(prs)
+    ctx.notes_before = notes_before(prs)
+    sids0 = xp(prs.part._element, "./p:sldIdLst/p:sldId/@id")
+    ctx.sid_dups_before = len(set(sids0)) != len(sids0)
     ctx.masters = list(prs.slide_masters)
     ctx.had_notes_master = any(r.reltype == PRT.NOTES_MASTER for r in prs.part.rels.values())
     case["master"] %= len(ctx.masters)
